@@ -54,6 +54,9 @@ func dataToken(r *core.Rand, n int) string {
 
 // genReads scripts what the wrapped body returns to each Read of the consumer.
 func genReads(r *core.Rand, tier string) string {
+	if r.Chance(1, 10) {
+		return fmt.Sprintf("N%d", r.Intn(3))
+	}
 	var total int
 	switch c := r.Intn(20); {
 	case c < 3:
